@@ -30,10 +30,6 @@ def hostOf (srv : ServerId) (e : Entry) : Str := e.host.getD srv.name
 def portOf (srv : ServerId) (e : Entry) : Str :=
   match e.port with | some p => toDecInt p | none => toDec srv.port
 
-/-- `GopherProtocol.menufield`: TAB, CR and LF delimit the fields and lines of a menu and cannot
-    be part of a field; each becomes a blank -/
-def menuField (s : Str) : Str := s.map fun c => if c = 9 ∨ c = 13 ∨ c = 10 then 32 else c
-
 /-- `GopherProtocol.renderobjinfo` -/
 def gopher0Line (srv : ServerId) (e : Entry) : Option Str :=
   match e.name with
